@@ -10,10 +10,13 @@ package main
 // A disagreement means the translator's semantics of a Go construct is wrong (or the shim is): a broken tie.
 
 import (
+	"bytes"
 	"fmt"
+	"io"
 	"math/rand"
 	"strings"
 
+	"github.com/ulikunitz/xz"
 	"github.com/ulikunitz/xz/lzma"
 )
 
@@ -197,6 +200,58 @@ func xlateTie(r *Result, dp *DriverPool, rng *rand.Rand, n int) error {
 			return err
 		}
 	}
-	r.Add("xlate_fn_requests", 400*6)
+	for i := 0; i < 400; i++ {
+		n := rng.Int63()
+		switch rng.Intn(3) {
+		case 0:
+			n = int64(rng.Intn(5000))
+		case 1:
+			n = int64(1)<<uint(rng.Intn(34)) + int64(rng.Intn(3)) - 1
+		}
+		if err := ask(fmt.Sprintf("gosrc fn padlen %d", n), fmt.Sprint(xz.VerifPadLen(n))); err != nil {
+			return err
+		}
+		if err := ask(fmt.Sprintf("gosrc fn encdict %d", n), fmt.Sprint(lzma.EncodeDictCap(n))); err != nil {
+			return err
+		}
+		c := byte(rng.Intn(256))
+		dn, derr := lzma.DecodeDictCap(c)
+		de := "nil"
+		if derr != nil {
+			de = "new:" + derr.Error()
+		}
+		if err := ask(fmt.Sprintf("gosrc fn decdict %d", c), fmt.Sprintf("%d %s", dn, de)); err != nil {
+			return err
+		}
+		// uvarint: up to 12 bytes, mostly continuation bytes, the tenth byte at its limit
+		k := rng.Intn(13)
+		p := make([]byte, k)
+		for j := range p {
+			p[j] = byte(rng.Intn(256))
+			if rng.Intn(3) > 0 {
+				p[j] |= 0x80
+			}
+		}
+		if k >= 10 && rng.Intn(2) == 0 {
+			p[9] = byte(rng.Intn(3))
+		}
+		br := bytes.NewReader(p)
+		x, cnt, uerr := xz.VerifReadUvarintR(br)
+		ue := "nil"
+		switch {
+		case uerr == io.EOF:
+			ue = "io.EOF"
+		case uerr != nil:
+			ue = "errOverflowU64"
+		}
+		hp := hx(p)
+		if k == 0 {
+			hp = "-"
+		}
+		if err := ask("gosrc fn uvarint "+hp, fmt.Sprintf("%d %d %s %d", x, cnt, ue, br.Len())); err != nil {
+			return err
+		}
+	}
+	r.Add("xlate_fn_requests", 400*10)
 	return nil
 }
